@@ -17,10 +17,14 @@ Record field_case := FieldC {
 
 Definition is_pow2 (r : Z) : bool := (0 <? r) && (2 ^ Z.log2 r =? r).
 
+(* exponent of a foreign packer (the original PAKOUT rule NEXP = floor(log2 RMAX) + 1) *)
+Definition nexp_rule_orig (r nexp_rel : Z) : bool :=
+  if r =? 0 then true else (nexp_rel =? Z.log2 r + 1).
+(* exponent of the library's pack2d since /repo fa89813: one more when RMAX exceeds 127 quanta
+   (the logf band at exact powers of two ends at the same value) *)
 Definition nexp_rule (r nexp_rel : Z) : bool :=
   if r =? 0 then true (* RMAX = 0: SEXP = 0, NEXP = 1, checked by the harness *)
-  else (nexp_rel =? Z.log2 r + 1)
-       || (is_pow2 r && (nexp_rel =? Z.log2 r))   (* logf band at exact powers of two *).
+  else nexp_rel =? nexp_rule_fixed r.
 Definition nexp_ok (c : field_case) : bool := nexp_rule (rmax (c_rows c)) (c_nexp_rel c).
 
 Definition checkF_field (c : field_case) : bool :=
@@ -39,6 +43,24 @@ Definition region_field (c : field_case) : nat :=
   let r := rmax (c_rows c) in
   if r <=? 254 * c_h c then 0%nat
   else if r <=? 256 * c_h c then 1%nat else 2%nat.
+
+(* ---- decoding of fields packed by another tool (original exponent rule, RMAX possibly in
+   (127q,128q]): only `unpack` of the library is exercised; it must return exactly the running
+   values of that packer when no code wrapped, whatever exponent rule was used ---------------- *)
+Record decode_case := DecodeC {
+  d_h : Z; d_rows : list (list Z);          (* the field and the foreign packer's half quantum *)
+  d_nexp_rel : Z;                            (* its NEXP - ue *)
+  d_bytes : list (list Z);                   (* the bytes it wrote *)
+  d_unp : list (list Z)                      (* library unpack(bytes, VAR1, NEXP) in the unit *)
+}.
+Definition checkF_decode (c : decode_case) : bool :=
+  zll_eqb (pack_bytes (d_h c) (d_rows c)) (d_bytes c)          (* harness: foreign packer = model at that h *)
+  && nexp_rule_orig (rmax (d_rows c)) (d_nexp_rel c)
+  && zll_eqb (unpack_rows (d_h c) (hdZ (first_row (d_rows c))) (d_bytes c)) (d_unp c).
+Definition checkS_decode (c : decode_case) : bool :=
+  (hdZ (first_row (d_unp c)) =? hdZ (first_row (d_rows c)))
+  && (if bytes_ok (raw_codes (d_h c) (d_rows c)) then zll_eqb (d_unp c) (enc_recon (d_h c) (d_rows c)) else true)
+  && (if rmax (d_rows c) <=? 254 * d_h c then within (2 * d_h c) (d_rows c) (d_unp c) else true).
 
 (* ---- file layer ---------------------------------------------------------------------- *)
 (* a variable as observed through the library interface / as evaluated from the model:
@@ -74,14 +96,6 @@ Definition eval_rec (ue : Z) (tab : list (list Z * Z)) (nx : Z) (r : option libr
       | _, _ => None
       end
   end.
-(* ' 1' -> 1, '01' -> 1 (the library replaces blanks by '0' before strptime) *)
-Definition two_digits (a b : Z) : Z :=
-  let d c := if c =? 32 then 0 else if is_digit c then c - 48 else -100 in 10 * d a + d b.
-Definition time_fields (t : list Z) : list Z :=
-  match t with
-  | a :: b :: c :: d :: e :: f :: g :: h :: _ => [two_digits a b; two_digits c d; two_digits e f; two_digits g h]
-  | _ => []
-  end.
 Definition eval_view (ue : Z) (tab : list (list Z * Z)) (v : libview) : eview :=
   EView (lb_nz1 v) (lb_nx v) (lb_ny v) (lb_sfclvl v) (lb_zlvls v) (map time_fields (lb_times v))
     (map (fun x => (lv_key x, lv_sfc x, map (map (eval_rec ue tab (lb_nx v))) (lv_recs x))) (lb_vars v)).
@@ -106,24 +120,24 @@ Definition period_eqb (a b : period_t) : bool :=
 
 (* the record of the content is the packing of the field (encoder agreement incl. pack2d's
    model): bytes, exponent rule, VAR1, checksum *)
-Definition rec_matches (ue : Z) (tab : list (list Z * Z)) (v : var_t) (rows : list (list Z)) : bool :=
+Definition rec_matches (rule : Z -> Z -> bool) (ue : Z) (tab : list (list Z * Z)) (v : var_t) (rows : list (list Z)) : bool :=
   match h_of ue (v_exp v), lookup (v_var1 v) tab with
   | Some h, Some v1 =>
       zlist_eqb (concat (pack_bytes h rows)) (v_data v)
       && (v1 =? hdZ (first_row rows))
       && (v_ck v =? ksum (pack_bytes h rows))
-      && (if rmax rows =? 0 then v_exp v =? 1 else nexp_rule (rmax rows) (v_exp v - ue))
+      && (if rmax rows =? 0 then v_exp v =? 1 else rule (rmax rows) (v_exp v - ue))
   | _, _ => false
   end.
-Definition lvl_matches ue tab (l : lvl_t) (rs : list (list (list Z))) : bool :=
+Definition lvl_matches rule ue tab (l : lvl_t) (rs : list (list (list Z))) : bool :=
   (length (l_vars l) =? length rs)%nat
-  && forallb (fun x => rec_matches ue tab (fst x) (snd x)) (combine (l_vars l) rs).
-Definition period_matches ue tab (p : period_t) (rs : list (list (list (list Z)))) : bool :=
+  && forallb (fun x => rec_matches rule ue tab (fst x) (snd x)) (combine (l_vars l) rs).
+Definition period_matches rule ue tab (p : period_t) (rs : list (list (list (list Z)))) : bool :=
   (length (p_levels p) =? length rs)%nat
-  && forallb (fun x => lvl_matches ue tab (fst x) (snd x)) (combine (p_levels p) rs).
-Definition content_matches ue tab (ps : list period_t) rs : bool :=
+  && forallb (fun x => lvl_matches rule ue tab (fst x) (snd x)) (combine (p_levels p) rs).
+Definition content_matches rule ue tab (ps : list period_t) rs : bool :=
   (length ps =? length rs)%nat
-  && forallb (fun x => period_matches ue tab (fst x) (snd x)) (combine ps rs).
+  && forallb (fun x => period_matches rule ue tab (fst x) (snd x)) (combine ps rs).
 
 Definition uniform (ps : list period_t) : bool :=
   match ps with [] => false | p0 :: t => forallb (same_layout p0) t && forallb (same_keys p0) t end.
@@ -134,7 +148,7 @@ Definition checkF_file (c : file_case) : bool :=
   zlist_eqb (enc (fc_ps c)) (fc_bytes c)
   && option_eqb (list_eqb period_eqb) (dec (fc_bytes c)) (Some (fc_ps c))
   && forallb wf_period (fc_ps c) && uniform (fc_ps c)
-  && content_matches (fc_ue c) (fc_v1 c) (fc_ps c) (fc_rows c)
+  && content_matches nexp_rule_orig (fc_ue c) (fc_v1 c) (fc_ps c) (fc_rows c)   (* files come from a foreign packer *)
   (* faithfulness: library = model of the library *)
   && option_eqb eview_eqb
        (option_map (eval_view (fc_ue c) (fc_v1 c)) (impl_read std_sizes (fc_bytes c))) (fc_obs c).
@@ -186,11 +200,13 @@ Record write_case := WriteC {
   wc_keys : list (list (list Z));                   (* keys per level *)
   wc_v1 : list (list Z * Z);                        (* '%14.7E' text of every VAR1 -> value *)
   wc_rows : list (list (list (list (list Z))));     (* t, level, var: the fields *)
+  wc_in : winput;                                   (* the same input for the Gallina writer *)
   wc_obs : option (list Z)                          (* bytes of the file written (None = raised) *)
 }.
 
+(* faithfulness: the library's output (or its raising) is the Gallina writer's *)
 Definition checkF_write (c : write_case) : bool :=
-  match wc_obs c with None => impl_write_raises | Some _ => negb impl_write_raises end.
+  wf_winput (wc_in c) && option_eqb zlist_eqb (impl_write (wc_in c)) (wc_obs c).
 
 Definition checkS_write (c : write_case) : bool :=
   match wc_obs c with
@@ -204,18 +220,18 @@ Definition checkS_write (c : write_case) : bool :=
                                && zll_eqb (map l_text (p_levels p)) (wc_lvltxt c)
                                && list_eqb zll_eqb (map (fun l => map v_key (l_vars l)) (p_levels p)) (wc_keys c)
                                && cksums_ok p) ps
-          && content_matches (wc_ue c) (wc_v1 c) ps (wc_rows c)
+          && content_matches nexp_rule (wc_ue c) (wc_v1 c) ps (wc_rows c)
       end
   end.
 
 (* ---- dispatch ------------------------------------------------------------------------ *)
-Inductive case_t := Case (c : field_case) | RCase (c : file_case) | WCase (c : write_case).
+Inductive case_t := Case (c : field_case) | DCase (c : decode_case) | RCase (c : file_case) | WCase (c : write_case).
 
 Definition checkF (c : case_t) : bool :=
-  match c with Case f => checkF_field f | RCase f => checkF_file f | WCase w => checkF_write w end.
+  match c with Case f => checkF_field f | DCase d => checkF_decode d | RCase f => checkF_file f | WCase w => checkF_write w end.
 Definition checkS (c : case_t) : bool :=
-  match c with Case f => checkS_field f | RCase f => checkS_file f | WCase w => checkS_write w end.
+  match c with Case f => checkS_field f | DCase d => checkS_decode d | RCase f => checkS_file f | WCase w => checkS_write w end.
 Definition region (c : case_t) : nat :=
-  match c with Case f => region_field f | RCase f => region_file f | WCase _ => 4%nat end.
+  match c with Case f => region_field f | DCase _ => 0%nat | RCase f => region_file f | WCase _ => 0%nat end.
 
 Definition check (c : case_t) : verdict := (checkF c, checkS c, region c).
